@@ -15,6 +15,7 @@ import refstore
 A1 = Schema('A1', [
     Opt('int', 'i', '', 5), Opt('int', 'il', 'L', [b'1', b'2']), Opt('str', 's', '', b'd'), Opt('str', 'sl', 'L'),
     Opt('bool', 'b', '', False), Opt('float', 'f', '', 1.5), Opt('int', 'si', 'S'), Opt('str', 'ss', 'S'),
+    Opt('float', 'fl', 'L', [b'1.5']), Opt('bool', 'bl', 'L'),
     Opt('sec', 'mt', 'MT', sub=[Opt('int', 'x', '', 1), Opt('int', 'xl', 'L', [b'1'])]),
     Opt('sec', 'sec', '', sub=[Opt('int', 'x', '', 1)]),
     Opt('sec', 'm', 'M', sub=[Opt('int', 'x', '', 1)])])
@@ -33,6 +34,11 @@ def ops_alphabet(full=True):
         O.append(('set', 'int', b'i', 7, idx))
         O.append(('set', 'int', b'il', 7, idx))
     O.append(('set', 'int', b'il', 8, 0))
+    O.append(('set', 'int', b'il', 6, 2))
+    O.append(('set', 'float', b'fl', 2.5, 1))
+    O.append(('addlist', b'fl', 'float', [3.5]))
+    O.append(('set', 'bool', b'bl', 1, 0))
+    O.append(('setmulti', b'bl', [b'on', b'off']))
     O.append(('set', 'str', b's', b'v', None))
     O.append(('set', 'str', b'sl', b'v', 1))
     O.append(('set', 'str', b'sl', b'w', 0))
